@@ -190,7 +190,9 @@ def cells():
     out = []
     for v in VARIANTS:
         n3q = False
-        for n, iters, tier in [(2, 1, 'quick'), (3, 1, 'quick' if n3q else 'thorough'), (2, 2, 'thorough'), (3, 2, 'thorough')]:
+        q2 = v in ('pure:none', 'pure:rayleigh', 'implicit:rayleigh', 'unified:aed', 'unified:ds/noshifts', 'experimental:aed_windowed',
+                   'experimental:francis_ds', 'schur:wilkinson')       # one per code path; the others dispatch to these (composition cells)
+        for n, iters, tier in [(2, 1, 'quick' if q2 else 'thorough'), (3, 1, 'quick' if n3q else 'thorough'), (2, 2, 'thorough'), (3, 2, 'thorough')]:
             out.append(Cell('similarity[%s,n=%d,iters=%d]' % (v, n, iters), 'c10:similarity', dict(variant=v, n=n, iters=iters),
                             domain='a' if (v.startswith('schur:') or _needs_unitary(v)) else 'z', tier=tier,
                             timeout_s=1200 if tier == 'quick' else 2400, q_timeout_ms=5000, ob_timeout_ms=5000 if tier == 'quick' else 60000, max_paths=300,
